@@ -2,10 +2,14 @@ package main
 
 // C08 — every rendered document is applied exactly once, in dependency order.
 //
-// Four kinds of cases, all executed on the real Helm code:
+// Case kinds, all executed on the real Helm code (full, lower and the token stream of sort are in
+// c08_full.go):
 //   split   releaseutil.SplitManifests on a raw stream                  -> Text/Split.v
 //   sort    releaseutil.SortManifests on a file map                     -> Text/Classify.v, KindSort.v
-//   render  action.Install (dry run, client only) on an in-memory chart -> render_resources
+//   render  action.Install (dry run, client only) on an in-memory chart -> render_full (all flags off)
+//   full    the same with crds/, NOTES.txt at several depths, --hide-secret, a post-renderer,
+//           --output-dir                                                 -> Text/Full.v render_full
+//   lower   strings.ToLower on generated tokens                          -> Text/Lower.v go_to_lower
 //   barrier kube.Client.Create against an in-process API with random per-request delays
 //                                                                        -> Text/Batch.v
 // The Coq side is Run/RunC08.v.
@@ -44,7 +48,7 @@ type c08File struct {
 }
 
 type c08Case struct {
-	Kind      string    `json:"kind"` // split sort render barrier
+	Kind      string    `json:"kind"` // split sort render full lower uninstall barrier
 	Raw       []byte    `json:"raw,omitempty"`
 	RawDocs   []c08Doc  `json:"raw_docs,omitempty"`
 	RawClean  bool      `json:"raw_clean,omitempty"`
@@ -55,6 +59,8 @@ type c08Case struct {
 	Kinds     []string `json:"kinds,omitempty"`
 	Fail      []int    `json:"fail,omitempty"`
 	DelaySeed int64    `json:"delay_seed,omitempty"`
+	// full: the rest of renderResources (c08_full.go)
+	Full *c08Full `json:"full,omitempty"`
 }
 
 type c08Hook struct {
@@ -105,6 +111,13 @@ type c08Obs struct {
 	Posts    map[string]int `json:"posts,omitempty"`
 	BuiltK   []string       `json:"built_kinds,omitempty"`
 	Returned bool           `json:"returned,omitempty"`
+	// full
+	Notes   string            `json:"notes,omitempty"`
+	Written map[string][]byte `json:"written,omitempty"`
+	PRCalls int               `json:"pr_calls,omitempty"`
+	PRIn    []byte            `json:"pr_in,omitempty"`
+	PROut   []byte            `json:"pr_out,omitempty"`
+	Lowered []byte            `json:"lowered,omitempty"`
 	// uninstall
 	Stream   []byte     `json:"stream,omitempty"`
 	NStreams int        `json:"nstreams,omitempty"`
@@ -114,7 +127,7 @@ type c08Obs struct {
 
 func (*c08) ID() string { return "C08" }
 func (*c08) CoqImport() string {
-	return "From Helm Require Import Text.Classify Text.Batch Run.RunC08."
+	return "From Helm Require Import Text.Classify Text.Batch Text.Full Run.RunC08."
 }
 func (*c08) Rule() string {
 	return "four streams from one PRNG: raw YAML streams for SplitManifests (structured: 0-8 documents joined with " +
@@ -177,6 +190,10 @@ func (*c08) NonTrivial(ci, oi any) bool {
 			}
 		}
 		return false
+	case "full":
+		return c08FullNonTrivial(c, obs)
+	case "lower":
+		return string(obs.Lowered) != string(c.Raw)
 	case "uninstall":
 		docs, _ := c08StreamDocs(obs.Stream)
 		kinds := map[string]bool{}
@@ -361,6 +378,10 @@ func (*c08) CoqCase(ci, oi any) string {
 		return fmt.Sprintf("CRender %s %s %s", c08CoqFiles(obs.Heads, fs, c08ChartName+"/"), c08CoqHeads(obs.Heads), o)
 	case "uninstall":
 		return c08CoqUninstall(c, obs)
+	case "full":
+		return c08CoqFull(c, obs)
+	case "lower":
+		return fmt.Sprintf("CLower %s %s", c08Str(string(c.Raw)), c08Str(string(obs.Lowered)))
 	case "barrier":
 		evs := make([]string, len(obs.Events))
 		for i, e := range obs.Events {
@@ -431,6 +452,7 @@ func (*c08) Corpus() []any {
 	out = append(out, c08Case{Kind: "sort", Files: []c08File{c08Join("templates/many.yaml", many, []string{"\n---\n"}, "", "\n")}, Tag: "corpus"})
 	out = append(out, c08Case{Kind: "barrier", Kinds: []string{"ConfigMap", "ConfigMap", "Secret", "Service", "Service"}, DelaySeed: 1, Tag: "corpus"})
 	out = append(out, c08UninstallCorpus()...)
+	out = append(out, c08FullCorpus()...)
 	return out
 }
 
@@ -461,14 +483,20 @@ func (*c08) Exhaustive(tier string) []any {
 
 func (p *c08) Generate(r *rand.Rand, i int) any {
 	switch k := r.Intn(100); {
-	case k < 28:
+	case k < 22:
 		return c08GenSplit(r)
-	case k < 56:
+	case k < 44:
 		c := c08GenFiles(r, "sort")
 		c.Uninstall = r.Intn(3) == 0
 		return c
-	case k < 82:
+	case k < 50:
+		return c08GenTokens(r)
+	case k < 54:
+		return c08GenLower(r)
+	case k < 64:
 		return c08GenFiles(r, "render")
+	case k < 82:
+		return c08GenFull(r)
 	case k < 91:
 		return c08GenUninstall(r)
 	default:
